@@ -207,7 +207,7 @@ func genMapRich(rt *rapid.T, avoid map[string]bool) *dsl.Program {
 
 func TestC13(t *testing.T) {
 	c := pbt.New("C13", "exploration",
-		"well-formed programs biased to >=3 packets, several match fields per packet and several referenced packets per packet; each is compiled 8 times in one process (Go re-randomises map iteration on every range) and, for a sample, by 3 CLI processes; all file maps must be byte-identical. Non-trivial = >=3 packets and a packet with >=2 match fields or >=2 distinct referenced packets; distinct = hash of DSL text.",
+		"well-formed programs biased to >=3 packets, several match fields per packet and several referenced packets per packet; each is compiled 8 times in one process (Go re-randomises map iteration on every range) and, for a sample, by 3 CLI processes with one directory per target and 3 more with one directory for all targets; all file maps must be byte-identical. Non-trivial = >=3 packets and a packet with >=2 match fields or >=2 distinct referenced packets; distinct = hash of DSL text.",
 		"map orders can only be sampled, not enumerated: a 2-entry map escapes 8 runs with probability 2^-7 per program", "the C++ generator stamps the current year; runs inside one check share it")
 	if p := pbt.ReplayPath(); p != "" {
 		c.Direct(t, func() { replayHistory(p, evalC13); k := loadCase[c13Case](t, p); c.Eval(); c.Report(pbt.DirectTB(t), k, evalC13(k)) })
@@ -391,7 +391,7 @@ func snapDiff(a, b string) string {
 
 func TestC14(t *testing.T) {
 	c := pbt.New("C14", "exploration",
-		"well-formed programs (biased to fixed strings: zchar, NUL/declared padding, pad options, MetaData-shared types) x a random history of up to 12 generator runs over ONE parsed model (state machine; invariant after every step: output == output of that generator alone on a fresh parse, deep model snapshot unchanged) and, for a sample, a random subset of the 6 output flags through the CLI (tree of L under the subset == tree of L alone). Non-trivial = history with >=2 different generators and a program containing a fixed-string field; distinct = hash of (text, history, subset).",
+		"well-formed programs (biased to fixed strings: zchar, NUL/declared padding, pad options, MetaData-shared types; reserved words of the target languages as field names; a sixth without root packet, where three generators refuse the model; a quarter with two match fields on one key) x a random history of up to 12 generator runs over ONE parsed model (state machine; invariant after every step: output == output of that generator alone on a fresh parse, deep model snapshot unchanged) and, for a sample, a random subset of the 6 output flags through the CLI (tree of L under the subset == tree of L alone). Non-trivial = history with >=2 different generators and a program containing a fixed-string field; distinct = hash of (text, history, subset).",
 		"the reference output of a generator is its output on a fresh parse with no other generator run")
 	if p := pbt.ReplayPath(); p != "" {
 		c.Direct(t, func() { replayHistory(p, evalC14); k := loadCase[c14Case](t, p); c.Eval(); c.Report(pbt.DirectTB(t), k, evalC14(k)) })
